@@ -504,7 +504,25 @@ class Exec(Verifier):
             self._exec_guarded(z3.Not(c), s.orelse)
             return
         if self.branch(c, "if " + ast.unparse(s.test)[:40]):
-            self.exec_block(s.body)
+            # flow typing: `if isinstance(x.y, C):` narrows x.y to C inside the branch
+            t = s.test
+            key = None
+            if isinstance(t, ast.Call) and isinstance(t.func, ast.Name) and t.func.id == "isinstance" and len(t.args) == 2 \
+                    and isinstance(t.args[1], ast.Name) and t.args[1].id in self.reg.classes:
+                nar = getattr(self.frame, "narrow", None)
+                if nar is None:
+                    nar = self.frame.narrow = {}
+                key = ast.unparse(t.args[0])
+                prev = nar.get(key)
+                nar[key] = t.args[1].id
+            try:
+                self.exec_block(s.body)
+            finally:
+                if key is not None:
+                    if prev is None:
+                        self.frame.narrow.pop(key, None)
+                    else:
+                        self.frame.narrow[key] = prev
         else:
             self.exec_block(s.orelse)
 
@@ -765,16 +783,26 @@ class Exec(Verifier):
             self.havoc([], {}, allocates=True)
         else:
             new_regions = ["#" + m.split("@", 1)[1].strip() for m in spec.modifies if m.startswith("new@")]
-            self.havoc([m for m in spec.modifies if not m.startswith("new@")], dict(self.st.loc),
-                       allocates=('$alloc' in spec.modifies or bool(new_regions)))
+            new_fields = [m.split(":", 1)[1].strip() for m in spec.modifies if m.startswith("new:")]
+            self.havoc([m for m in spec.modifies if not m.startswith("new@") and not m.startswith("new:")], dict(self.st.loc),
+                       allocates=('$alloc' in spec.modifies or bool(new_regions) or bool(new_fields)))
             alloc_pre = pre_heap.get("$alloc", self._init_heap.get("$alloc", self.alloc_map()))
+            keys = []
             for rg in new_regions:
-                for k in [k for k in list(self.st.heap) if k.startswith("$") and k.endswith(rg)]:
-                    old = self.st.heap[k]
-                    new = self.fresh("H_" + k, old.sort())
-                    r = self.fresh("r", Ref)
-                    self.assume(z3.ForAll([r], z3.Implies(z3.Select(alloc_pre, r), z3.Select(new, r) == z3.Select(old, r))))
-                    self.hset(k, new)
+                keys += [k for k in list(self.st.heap) if k.startswith("$") and k.endswith(rg)]
+            for fld in new_fields:
+                cname, attr = fld.split(".", 1)
+                fk = self.field_key(cname, attr)
+                if fk is None:
+                    raise Unsupported("modifies new:%s: unknown field" % fld)
+                self.hget(fk[0], z3.ArraySort(Ref, sort_of(fk[1])))
+                keys.append(fk[0])
+            for k in keys:
+                old = self.st.heap[k]
+                new = self.fresh("H_" + k, old.sort())
+                r = self.fresh("r", Ref)
+                self.assume(z3.ForAll([r], z3.Implies(z3.Select(alloc_pre, r), z3.Select(new, r) == z3.Select(old, r))))
+                self.hset(k, new)
         head_heap = dict(self.st.heap)
         alloc_head = self.alloc_map()
         self.loop_heap = pre_heap
@@ -820,11 +848,20 @@ class Exec(Verifier):
                 # frame: heap locations outside `modifies` are untouched
                 if spec.modifies is not None:
                     new_regions = ["#" + m.split("@", 1)[1].strip() for m in spec.modifies if m.startswith("new@")]
+                    new_keys = set()
+                    for m in spec.modifies:
+                        if m.startswith("new:"):
+                            cname, attr = m.split(":", 1)[1].strip().split(".", 1)
+                            fk = self.field_key(cname, attr)
+                            if fk is not None:
+                                new_keys.add(fk[0])
                     for k, term in list(self.st.heap.items()):
                         h0 = head_heap.get(k, self._init_heap.get(k))
                         if h0 is None or term.get_id() == h0.get_id():
                             continue
-                        if any(k.endswith(rg) for rg in new_regions):
+                        if k in new_keys and self._in_modifies(k, [m for m in spec.modifies if not m.startswith("new:")]):
+                            continue
+                        if any(k.endswith(rg) for rg in new_regions) or k in new_keys:
                             r = self.fresh("r", Ref)
                             self.oblige("%s frame: %s changes only at objects allocated by this iteration" % (label, k), "frame",
                                         z3.ForAll([r], z3.Implies(z3.Select(alloc_head, r), z3.Select(term, r) == z3.Select(h0, r))), props)
@@ -842,6 +879,8 @@ class Exec(Verifier):
         for m in modifies:
             key = m.split("@")[0].strip()
             if key == "$alloc" and hkey == "$alloc":
+                return True
+            if key.startswith("region:") and hkey.startswith("$") and hkey.endswith("#" + key.split(":", 1)[1]):
                 return True
             if key in ("list", "deque", "set", "dict") and "@" in m:
                 # region of the named container(s): every heap map of that region may change
@@ -918,6 +957,7 @@ class Exec(Verifier):
         fr.loop_ord = self._loop_ordinals(fdef)
         fr.unbound_locals = self._assigned_locals(fdef) - set(bound)
         fr.ghost_before, fr.ghost_after = {}, {}
+        fr.narrow = None
         if con is not None and con.ghost:
             stmts = [n for n in _walk_stmts(fdef.body)]
             for g in con.ghost:
@@ -1224,6 +1264,7 @@ def _dummy_frame(con):
     fr = Frame()
     fr.rel, fr.func, fr.fname, fr.contract, fr.cls = con.file if con.file != "ext" else None, None, con.qualname, con, con.cls
     fr.loop_ord, fr.unbound_locals, fr.ghost_before, fr.ghost_after = {}, set(), {}, {}
+    fr.narrow = None
     return fr
 
 
